@@ -171,12 +171,14 @@ extern "C" void harness_geom_d_vector() {
   int he = (int)v_param(1);
   if (he >= 2 * S.nE) return;
   int from = snap_he_from(S, he), to = snap_he_to(S, he);
-  V3d d = m.vector(HEH(he));
-  for (int k = 0; k < 3; ++k) v_assert(same(d[(size_t)k], PD[to][k] - PD[from][k]), "C19 vector(halfedge) == position(to) - position(from) (double)");
-  if ((he & 1) == 0) {
+  int k = (int)v_param(2);   // component 0..2: vector(halfedge); 3..5: vector(edge) (even halfedges)
+  if (k < 3) {
+    V3d d = m.vector(HEH(he));
+    v_assert(same(d[(size_t)k], PD[to][k] - PD[from][k]), "C19 vector(halfedge) == position(to) - position(from) (double)");
+  } else if ((he & 1) == 0 && k < 6) {
     V3d de = m.vector(EH(he >> 1));
-    for (int k = 0; k < 3; ++k) v_assert(same(de[(size_t)k], PD[to][k] - PD[from][k]), "C19 vector(edge) == position(to) - position(from) (double)");
-  }
+    v_assert(same(de[(size_t)(k - 3)], PD[to][k - 3] - PD[from][k - 3]), "C19 vector(edge) == position(to) - position(from) (double)");
+  } else return;
   v_witness("geom double: vector");
 }
 extern "C" void harness_geom_d_bary_edge() {
@@ -184,8 +186,10 @@ extern "C" void harness_geom_d_bary_edge() {
   if (!setup_d(m)) return;
   int e = (int)v_param(1);
   if (e >= S.nE) return;
+  int k = (int)v_param(2);
+  if (k >= 3) return;
   V3d bc = m.barycenter(EH(e));
-  for (int k = 0; k < 3; ++k) v_assert(same(bc[(size_t)k], 0.5 * PD[S.efrom[e]][k] + 0.5 * PD[S.eto[e]][k]), "C19 barycenter(edge) == 0.5 * position(from) + 0.5 * position(to) (double)");
+  v_assert(same(bc[(size_t)k], 0.5 * PD[S.efrom[e]][k] + 0.5 * PD[S.eto[e]][k]), "C19 barycenter(edge) == 0.5 * position(from) + 0.5 * position(to) (double)");
   v_witness("geom double: edge barycenter");
 }
 extern "C" void harness_geom_d_length() {
